@@ -119,7 +119,7 @@ func (t *HTree) Root() [sha256.Size]byte {
 // InclusionProof returns the shortest list of additional nodes required to compute the root
 // It's an adaption from the algorithm for proof construction at github.com/codenotary/merkletree
 func (t *HTree) InclusionProof(i int) (proof *InclusionProof, err error) {
-	if i >= t.width {
+	if i < 0 || i >= t.width {
 		return nil, ErrIllegalArguments
 	}
 
